@@ -37,6 +37,9 @@ pub fn cmd_enc(a: &Args) {
                 if enc == "stable" && range {
                     continue;
                 }
+                if enc == "exp_co" && crate::stat::exp_cost(&af) > 200_000.0 {
+                    continue;
+                }
                 let r = catch_unwind(AssertUnwindSafe(|| {
                     let ctl = Ctl::new(false, vec![]);
                     let fac = obs::factory(&ctl);
